@@ -272,7 +272,10 @@ impl<'a, D: Dataset + ?Sized> ExecState<'a, D> {
                         .collect::<Result<BTreeSet<_>, _>>()
                         .map_err(SparqlWrapperError::Dataset)?;
                     if graph_names.is_empty() {
-                        self.select(inner, &[], binding)
+                        Ok(Bindings {
+                            variables,
+                            iter: Box::new(std::iter::empty()),
+                        })
                     } else {
                         self.graph_rec(var.as_str(), graph_names.into_iter(), inner, binding)
                     }
